@@ -104,6 +104,17 @@ SUMMARY.update({
  "C19-f": ("C19", "aggregator.rs cleanup: retain(k > round) instead of >=: partial quorums of the round just entered are dropped", "votes / timeouts for round r arriving before the node enters r"),
 })
 
+SUMMARY.update({
+ "C01-f": ("C01", "messages.rs Block::verify: early return Ok for a genesis QC also skips the verification of the embedded TC", "a Byzantine leader of a round >= 4 proposing on the genesis QC with a forged TC: honest nodes vote, the next leaders extend, a second branch is committed"),
+ "C03-e": ("C03", "core.rs process_block: round gate `block.round != self.round` became `block.round > self.round`", "a round-r block carrying a valid TC(r-1) and a valid QC of a round >= r"),
+ "C05-f": ("C05", "core.rs handle_proposal: payload check moved before block.verify / process_qc; a payload-resumed block is processed without any verification", "a correctly led proposal with a forged QC for b1 and a batch that arrives later"),
+ "C06-e": ("C06", "core.rs handle_tc: leader looked up for tc.round instead of the round just entered; a leader that learns of the view change from a peer's TC never proposes", "a crashed leader and a peer's TC reaching the next leader before it has assembled its own"),
+ "C10-f": ("C10", "aggregator.rs TCMaker: a re-sent timeout with a higher high-QC round replaces the author's entry and its stake is added again", "an authority timing out twice in one round with a higher QC the second time, before a quorum exists"),
+ "C12-e": ("C12", "quorum_waiter.rs: threshold = quorum - own stake hoisted out of the loop while the accumulator still starts at the own stake (own stake counted twice)", "acknowledged stake in [quorum - own, quorum): slow or silent peers"),
+ "C13-f": ("C13", "consensus/src/mempool.rs MempoolDriver::verify: the loop collecting missing batches stops at the first one", "a block referencing >= 2 batches the node lacks"),
+ "C15-d": ("C15", "crypto Signature::verify / verify_batch: dalek::Signature::from(bytes) (panics on non-canonical top bits) instead of from_bytes(..)?", "a vote / timeout / certificate whose signature has a top bit of the last byte set"),
+})
+
 def confirmed(d):
     out = {}
     for tag in ("with", "without"):
